@@ -1165,15 +1165,19 @@ func (m *NetworkMachine) WhenDisposed() <-chan struct{} {
 func (m *NetworkMachine) Export() (*am.Serialized, am.Schema, error) {
 	m.clockMx.RLock()
 	defer m.clockMx.RUnlock()
+
+	// these take the schema lock on their own
+	t := m.time(nil)
+	names := m.StateNames()
+	m.log(am.LogChanges, "[import] exported at %d ticks", t)
+
 	m.schemaMx.RLock()
 	defer m.schemaMx.RUnlock()
 
-	m.log(am.LogChanges, "[import] exported at %d ticks", m.time(nil))
-
 	return &am.Serialized{
 		ID:          m.id,
-		Time:        m.time(nil),
-		StateNames:  m.StateNames(),
+		Time:        t,
+		StateNames:  names,
 		MachineTick: m.machTick,
 		QueueTick:   m.queueTick,
 	}, m.schema.Clone(), nil
